@@ -1,4 +1,25 @@
 // Unit c51_locked_state -- property C51 "Locked state stays locked forever"
+// Real code (bodies extracted verbatim):
+//  (a) radix-engine/src/system/system_substates.rs : every method of FieldSubstate<V>, KeyValueEntrySubstate<V> (+ Default), LockStatus
+//  (b) radix-engine/src/system/system.rs (SystemService) : the OPEN GUARDS actor_open_field, actor_open_key_value_entry,
+//      key_value_store_open_entry; the WRITERS field_write, field_lock, key_value_entry_set, key_value_entry_remove,
+//      key_value_entry_lock, key_value_entry_remove_and_close_substate, actor_remove_key_value_entry,
+//      key_value_store_remove_entry, kernel_write_substate (forwarding impl); readers/closers field_read, field_close,
+//      key_value_entry_get, key_value_entry_close, kernel_close_substate; TryFrom<ActorStateHandle> for ActorStateRef;
+//      system_callback.rs SystemLockData::{is_kv_entry, is_kv_entry_with_write}
+//  (c) blueprint level, against the SystemApi trait whose contract SystemService is CHECKED to satisfy:
+//      radix-engine-interface field_api.rs / key_value_entry_api.rs provided methods field_read_typed, field_write_typed,
+//      key_value_entry_set_typed; metadata/package.rs MetadataNativePackage::{set, lock}; royalty/package.rs
+//      ComponentRoyaltyBlueprint::lock_royalty; role_assignment/package.rs RoleAssignmentNativePackage::{set_owner_role, lock_owner_role}
+// Method: "sensitive callee". The kernel primitive `kernel_write_substate` (env trait, not under contract) carries property
+// C51 as its PRECONDITION -- `write_allowed`: a substate whose stored value is Locked may only be rewritten with the same
+// typed content -- so every path of the system layer that reaches it must have established "not locked" (or "unchanged").
+// Where that comes from: the lock status is checked when a handle is OPENED with LockFlags::MUTABLE (the three open
+// guards); the writers check only the handle's lock data (Write / KVStoreWrite / KVCollectionWrite). The link between the
+// two is the state invariant `write_handles_unlocked` (every open handle carrying write lock data points at an unlocked
+// substate): established by the open guards on Ok, kept by write/set/remove, BROKEN by field_lock / key_value_entry_lock for
+// the handle they are called on (contract: `write_handles_unlocked_except`) and re-established by closing that handle
+// (lemma_close_restores, using the kernel's writer exclusivity, C13). See props.frag.json for what this means.
 use vstd::prelude::*;
 verus! {
 /*@include shims/rt.rs @*/
@@ -78,7 +99,12 @@ pub mod env {
         FieldLocked(ActorStateHandle, u8), KeyValueEntryLocked, Other,
     }
     /// RuntimeError (radix-engine/src/errors.rs) reduced: `Environment` = every error only the kernel / other modules raise
-    pub enum RuntimeError { SystemError(SystemError), Environment }
+    pub enum RuntimeError { SystemError(SystemError), ApplicationError(ApplicationError), Environment }
+    pub enum ApplicationError { MetadataError(MetadataError), RoleAssignmentError(RoleAssignmentError), Other }
+    pub enum MetadataError { MetadataValueValidationError(MetadataValueValidationError), MetadataKeyValidationError(MetadataKeyValidationError), Other }
+    pub struct MetadataKeyValidationError;
+    pub struct MetadataValueValidationError;
+    pub struct RoleAssignmentError;
     pub struct DecodeError;
     pub struct EncodeError;
     #[verifier::external]
@@ -136,7 +162,8 @@ pub mod env {
     }
 
     // ---- ghost kernel state ---------------------------------------------------------------------------
-    pub ghost struct HandleInfo { pub id: SubstateId, pub data: SystemLockData }
+    /// `mutable` = the handle was opened with LockFlags::MUTABLE (the kernel's own notion of a write lock)
+    pub ghost struct HandleInfo { pub id: SubstateId, pub data: SystemLockData, pub mutable: bool }
     pub ghost struct KState {
         /// current value of every substate, as `kernel_read_substate` would return it
         pub heap: Map<SubstateId, IndexedScryptoValue>,
@@ -170,10 +197,19 @@ pub mod env {
         locked(id, old_v) ==> same_content(id, old_v, new_v)
     }
 
+    pub open spec fn ref_handle(r: ActorStateRef) -> ActorStateHandle { match r { ActorStateRef::SELF => 0u32, ActorStateRef::OuterObject => 1u32 } }
+    /// "a payload of this field decodes as S" (schema typing of a field)
+    pub open spec fn payload_is<S>(v: ScryptoValue) -> bool {
+        forall|b: Seq<u8>| #[trigger] dec::<ScryptoValue>(b) == Some(v) ==> dec::<S>(b) is Some
+    }
     /// handle `h` was opened on `id` with lock data `data`
-    pub open spec fn opened(s0: KState, s1: KState, h: SubstateHandle, id: SubstateId, data: SystemLockData) -> bool {
+    pub open spec fn opened(s0: KState, s1: KState, h: SubstateHandle, id: SubstateId, data: SystemLockData, flags: LockFlags) -> bool {
         &&& !s0.handles.contains_key(h)
-        &&& s1.handles == s0.handles.insert(h, HandleInfo { id, data })
+        &&& s1.handles == s0.handles.insert(h, HandleInfo { id, data, mutable: flags.has(LockFlags::MUTABLE) })
+        // substate locks are exclusive for writers (property C13, kernel/substate_locks.rs): a MUTABLE open succeeds
+        // only if no handle is open on the substate, any open only if no MUTABLE handle is
+        &&& forall|h2: SubstateHandle| #[trigger] s0.handles.contains_key(h2) && s0.handles[h2].id == id
+                ==> !flags.has(LockFlags::MUTABLE) && !s0.handles[h2].mutable
         &&& s1.heap.contains_key(id)
         &&& s0.heap.contains_key(id) ==> s1.heap == s0.heap
         &&& !s0.heap.contains_key(id) ==> s1.heap.remove(id) == s0.heap
@@ -191,6 +227,9 @@ pub mod env {
     /// Any call may fail for its own reasons (costing, limits, substate locks, bad handle); `Err` changes nothing.
     pub trait SystemBasedKernelApi: Sized {
         spec fn st(&self) -> KState;
+        /// which substate `field_index` of the object behind an actor state handle (SELF = 0 / OUTER_OBJECT = 1) is,
+        /// for the current call frame (uninterpreted; resolved in reality by get_actor_field_info)
+        spec fn actor_field(&self, object_handle: ActorStateHandle, field_index: u8) -> SubstateId;
 
         fn kernel_get_lock_data(&mut self, lock_handle: SubstateHandle) -> (r: Result<SystemLockData, RuntimeError>)
             ensures final(self).st() == old(self).st(),
@@ -221,7 +260,7 @@ pub mod env {
                 substate_key: &SubstateKey, flags: LockFlags, default: Option<F>, lock_data: SystemLockData) -> (r: Result<SubstateHandle, RuntimeError>)
             requires default matches Some(f) ==> f.requires(())
             ensures
-                r matches Ok(h) ==> opened(old(self).st(), final(self).st(), h, (*node_id, partition_num, *substate_key), lock_data)
+                r matches Ok(h) ==> opened(old(self).st(), final(self).st(), h, (*node_id, partition_num, *substate_key), lock_data, flags)
                     && (!old(self).st().heap.contains_key((*node_id, partition_num, *substate_key))
                         ==> (default is Some && default->Some_0.ensures((), final(self).st().heap[(*node_id, partition_num, *substate_key)]))),
                 r matches Err(e) ==> e is Environment && final(self).st() == old(self).st();
@@ -229,7 +268,7 @@ pub mod env {
         fn kernel_open_substate(&mut self, node_id: &NodeId, partition_num: PartitionNumber,
                 substate_key: &SubstateKey, flags: LockFlags, lock_data: SystemLockData) -> (r: Result<SubstateHandle, RuntimeError>)
             ensures
-                r matches Ok(h) ==> opened(old(self).st(), final(self).st(), h, (*node_id, partition_num, *substate_key), lock_data)
+                r matches Ok(h) ==> opened(old(self).st(), final(self).st(), h, (*node_id, partition_num, *substate_key), lock_data, flags)
                     && old(self).st().heap.contains_key((*node_id, partition_num, *substate_key)),
                 r matches Err(e) ==> e is Environment && final(self).st() == old(self).st();
 
@@ -253,6 +292,75 @@ pub mod env {
         { unimplemented!() }
     }
 
+    // ---- environment of the object-module blueprints (metadata / royalty / role assignment) -----------
+    /// radix-native-sdk Runtime::emit_event -> SystemApi::actor_emit_event: events go to the event store of the
+    /// system module mixer, not to substates. ASSUMED: no effect on the ghost kernel state.
+    pub struct Runtime;
+    impl Runtime {
+        #[verifier::external_body]
+        pub fn emit_event<Y: super::unit::SystemApi<RuntimeError>, T>(api: &mut Y, event: T) -> (r: Result<(), RuntimeError>)
+            ensures final(api).kst() == old(api).kst()
+        { unimplemented!() }
+    }
+    #[verifier::external_body]
+    pub struct MetadataValue { x: Vec<u8> }
+    pub struct SetMetadataEvent { pub key: String, pub value: MetadataValue }
+    pub enum MetadataCollection { EntryKeyValue }
+    impl MetadataCollection { pub fn collection_index(&self) -> (r: CollectionIndex) ensures r == 0u8 { 0u8 } }
+    /// the SBOR payload the metadata module stores for a value (validate_metadata_value encodes MetadataEntryEntryPayload)
+    pub uninterp spec fn metadata_value_sbor(v: MetadataValue) -> Seq<u8>;
+    /// metadata/package.rs validate_metadata_key / validate_metadata_value: pure functions, not under contract here
+    #[verifier::external_body]
+    pub fn validate_metadata_key(key: &String) -> (r: Result<Vec<u8>, MetadataKeyValidationError>) { unimplemented!() }
+    #[verifier::external_body]
+    pub fn validate_metadata_value(value: &MetadataValue) -> (r: Result<Vec<u8>, MetadataValueValidationError>)
+        ensures r matches Ok(b) ==> b@ == metadata_value_sbor(*value)
+    { unimplemented!() }
+    impl ScryptoEncode for String {}
+    #[verifier::external_body]
+    pub struct AccessRule { x: Vec<u8> }
+    impl Clone for AccessRule {
+        #[verifier::external_body]
+        fn clone(&self) -> (r: Self) ensures r == *self { unimplemented!() }
+    }
+    pub enum OwnerRoleUpdater { None, Owner, Object }
+    pub struct OwnerRoleEntry { pub rule: AccessRule, pub updater: OwnerRoleUpdater }
+    pub struct OwnerRoleSubstate { pub owner_role_entry: OwnerRoleEntry }
+    /// macro-generated versioned payload wrapper (declare_native_blueprint_state!): a payload is its latest-version content
+    pub struct RoleAssignmentOwnerFieldPayload { pub content: OwnerRoleSubstate }
+    impl RoleAssignmentOwnerFieldPayload {
+        pub fn fully_update_and_into_latest_version(self) -> (r: OwnerRoleSubstate) ensures r == self.content { self.content }
+        pub fn from_content_source(c: OwnerRoleSubstate) -> (r: Self) ensures r.content == c { Self { content: c } }
+    }
+    impl ScryptoEncode for RoleAssignmentOwnerFieldPayload {}
+    impl ScryptoDecode for RoleAssignmentOwnerFieldPayload {}
+    pub struct SetOwnerRoleEvent { pub rule: AccessRule }
+    pub struct LockOwnerRoleEvent {}
+    impl super::unit::RoleAssignmentNativePackage {
+        /// role_assignment/package.rs: pure depth/size check of a rule, not under contract here
+        #[verifier::external_body]
+        pub fn verify_access_rule(access_rule: &AccessRule) -> (r: Result<(), RoleAssignmentError>) { unimplemented!() }
+    }
+    #[verifier::external_body]
+    #[derive(Clone, Copy)]
+    pub struct RoyaltyAmount { x: u8 }
+    pub struct ComponentRoyaltyMethodAmountEntryPayload { pub content: RoyaltyAmount }
+    impl ComponentRoyaltyMethodAmountEntryPayload {
+        pub fn from_content_source(c: RoyaltyAmount) -> (r: Self) ensures r.content == c { Self { content: c } }
+    }
+    impl ScryptoEncode for ComponentRoyaltyMethodAmountEntryPayload {}
+    /// royalty/package.rs RoyaltyUtil::verify_royalty_amounts: reads costing parameters (max royalty, USD price) through the
+    /// costing API only; not under contract. ASSUMED: no effect on substates / handles.
+    pub struct RoyaltyUtil;
+    impl RoyaltyUtil {
+        #[verifier::external_body]
+        pub fn verify_royalty_amounts<'a, I: Iterator<Item = &'a RoyaltyAmount>, Y: super::unit::SystemApi<RuntimeError>>(royalty_amounts: I, is_component: bool, api: &mut Y) -> (r: Result<(), RuntimeError>)
+            ensures final(api).kst() == old(api).kst()
+        { unimplemented!() }
+    }
+    pub enum ComponentRoyaltyCollection { MethodAmountKeyValue }
+    impl ComponentRoyaltyCollection { pub fn collection_index(&self) -> (r: CollectionIndex) ensures r == 0u8 { 0u8 } }
+
     // ---- methods of SystemService that are NOT under contract (type checker) -------------------------
     impl<'a, Y: SystemBasedKernelApi> SystemService<'a, Y> {
         /// system_type_checker.rs: ASSUMED to leave the ghost state alone (it only reads schemas) and, on Ok,
@@ -270,6 +378,7 @@ pub mod env {
             ensures final(self).api.st() == old(self).api.st(),
                     *final(final(self).api) == *final(old(self).api),
                     r matches Ok(t) ==> kind((t.0, t.2, SubstateKey::Field(field_index))) is Field
+                        && (t.0, t.2, SubstateKey::Field(field_index)) == old(self).api.actor_field(ref_handle(actor_object_type), field_index)
                         && (t.3 matches FieldTransience::TransientStatic { default_value } ==> dec::<ScryptoValue>(default_value@) is Some),
         { unimplemented!() }
         /// ASSUMED: resolves the actor's collection partition; for a KeyValueCollection every Map key in it is of kind KeyValue.
@@ -432,6 +541,10 @@ pub mod unit {
         &&& forall|h: SubstateHandle| #[trigger] s.handles.contains_key(h) ==> s.heap.contains_key(s.handles[h].id)
                 && (s.handles[h].data is Field ==> kind(s.handles[h].id) is Field)
                 && (s.handles[h].data is KeyValueEntry ==> kind(s.handles[h].id) is KeyValue)
+                && (is_write_data(s.handles[h].data) ==> s.handles[h].mutable)
+        // a MUTABLE handle is the only handle on its substate (C13)
+        &&& forall|h1: SubstateHandle, h2: SubstateHandle| #[trigger] s.handles.contains_key(h1) && #[trigger] s.handles.contains_key(h2)
+                && h1 != h2 && s.handles[h1].mutable ==> s.handles[h1].id != s.handles[h2].id
         &&& forall|id: SubstateId| #[trigger] s.heap.contains_key(id) ==>
                 (kind(id) is Field ==> field_of(s.heap[id]) is Some) && (kind(id) is KeyValue ==> kv_of(s.heap[id]) is Some)
     }
@@ -505,7 +618,7 @@ pub mod unit {
         let i = s1.handles[h];
         &&& s1.handles =~= s0.handles.insert(h, i)
         &&& kind(i.id) is Field && i.id.2 == SubstateKey::Field(field_index)
-        &&& i.data is Field && (field_write_data(i.data) <==> flags.has(LockFlags::MUTABLE))
+        &&& i.data is Field && (field_write_data(i.data) <==> flags.has(LockFlags::MUTABLE)) && i.mutable == flags.has(LockFlags::MUTABLE)
         &&& (flags.has(LockFlags::MUTABLE) && locked(i.id, s1.heap[i.id])
                 ==> ret == Err::<SubstateHandle, RuntimeError>(RuntimeError::SystemError(SystemError::FieldLocked(object_handle, field_index)))
                     || ret == Err::<SubstateHandle, RuntimeError>(RuntimeError::Environment))
@@ -517,7 +630,7 @@ pub mod unit {
         let i = s1.handles[h];
         &&& s1.handles =~= s0.handles.insert(h, i)
         &&& kind(i.id) is KeyValue
-        &&& i.data is KeyValueEntry && (kv_write_data(i.data) <==> flags.has(LockFlags::MUTABLE))
+        &&& i.data is KeyValueEntry && (kv_write_data(i.data) <==> flags.has(LockFlags::MUTABLE)) && i.mutable == flags.has(LockFlags::MUTABLE)
         &&& (flags.has(LockFlags::MUTABLE) && locked(i.id, s1.heap[i.id])
                 ==> ret == Err::<SubstateHandle, RuntimeError>(RuntimeError::SystemError(SystemError::KeyValueEntryLocked))
                     || ret == Err::<SubstateHandle, RuntimeError>(RuntimeError::Environment))
@@ -537,7 +650,8 @@ pub mod unit {
                 inv(final(self).api.st()),
                 none_new(old(self).api.st(), final(self).api.st()) ==> ret is Err && unchanged(old(self).api.st(), final(self).api.st()),
                 forall|h: SubstateHandle| is_new(old(self).api.st(), final(self).api.st(), h)
-                    ==> field_guard(old(self).api.st(), final(self).api.st(), h, object_handle, field_index, flags, ret),
+                    ==> field_guard(old(self).api.st(), final(self).api.st(), h, object_handle, field_index, flags, ret)
+                        && final(self).api.st().handles[h].id == old(self).api.actor_field(object_handle, field_index),
                 ret matches Ok(h) ==> is_new(old(self).api.st(), final(self).api.st(), h) && write_handles_unlocked(final(self).api.st()),
                 *final(final(self).api) == *final(old(self).api),
         @after <<let handle = match transient>> #1
@@ -793,6 +907,398 @@ pub mod unit {
                 ret is Ok ==> final(self).api.st().handles == old(self).api.st().handles.remove(handle),
                 ret is Err ==> final(self).api.st().handles == old(self).api.st().handles,
                 *final(final(self).api) == *final(old(self).api),
+        @*/
+    }
+
+    // ==========================================================================================
+    // (c) The SystemApi as blueprints see it, and the lock / set entry points of the object modules.
+    //     `SystemApi<E>` below is a HAND-WRITTEN MIRROR of the required methods of radix-engine-interface
+    //     SystemFieldApi / SystemKeyValueEntryApi / SystemActorApi / SystemActorKeyValueEntryApi (signatures only;
+    //     the provided *_typed methods are extracted). Its contracts are the ones proved above for SystemService,
+    //     minus the exact error values (E is generic). `impl SystemApi<RuntimeError> for SystemService` forwards
+    //     each method to the extracted, verified function of the same name: Verus checks there that the proved
+    //     contract implies the trait contract (no trust in the mirror).
+    // ==========================================================================================
+    pub open spec fn ok_of<T, E>(r: Result<T, E>) -> Option<T> { match r { Ok(x) => Some(x), Err(_) => None } }
+    /// what opening promises, without error values
+    pub open spec fn open_guard(s0: KState, s1: KState, h: SubstateHandle, k: SubstateKind, flags: LockFlags, ok: Option<SubstateHandle>) -> bool {
+        let i = s1.handles[h];
+        &&& s1.handles =~= s0.handles.insert(h, i)
+        &&& kind(i.id) == k
+        &&& (k is Field ==> i.data is Field) && (k is KeyValue ==> i.data is KeyValueEntry)
+        &&& (is_write_data(i.data) <==> flags.has(LockFlags::MUTABLE)) && i.mutable == flags.has(LockFlags::MUTABLE)
+        // THE GUARD: write access to a locked substate is never handed out
+        &&& (flags.has(LockFlags::MUTABLE) && locked(i.id, s1.heap[i.id]) ==> ok is None)
+        &&& (ok matches Some(x) ==> x == h)
+    }
+    /// closing the (exclusive) write handle after locking re-establishes `write_handles_unlocked`
+    pub proof fn lemma_close_restores(s: KState, h: SubstateHandle)
+        requires inv(s), s.handles.contains_key(h), s.handles[h].mutable, write_handles_unlocked_except(s, s.handles[h].id)
+        ensures write_handles_unlocked(KState { heap: s.heap, handles: s.handles.remove(h) }),
+                inv(KState { heap: s.heap, handles: s.handles.remove(h) })
+    {
+        let s1 = KState { heap: s.heap, handles: s.handles.remove(h) };
+        assert forall|g: SubstateHandle| #[trigger] s1.handles.contains_key(g) && is_write_data(s1.handles[g].data)
+            implies !locked(s1.handles[g].id, s1.heap[s1.handles[g].id]) by {
+            assert(s.handles.contains_key(g) && g != h);
+        }
+    }
+    pub proof fn lemma_close_keeps(s: KState, h: SubstateHandle)
+        requires inv(s)
+        ensures inv(KState { heap: s.heap, handles: s.handles.remove(h) }),
+                write_handles_unlocked(s) ==> write_handles_unlocked(KState { heap: s.heap, handles: s.handles.remove(h) })
+    {
+        let s1 = KState { heap: s.heap, handles: s.handles.remove(h) };
+        assert forall|g: SubstateHandle| #[trigger] s1.handles.contains_key(g) implies s.handles.contains_key(g) by {}
+    }
+
+    pub trait SystemApi<E>: Sized {
+        spec fn kst(&self) -> KState;
+        spec fn actor_field(&self, object_handle: ActorStateHandle, field_index: u8) -> SubstateId;
+
+        fn actor_open_field(&mut self, object_handle: ActorStateHandle, field_index: u8, flags: LockFlags) -> (ret: Result<SubstateHandle, E>)
+            requires inv(old(self).kst()), write_handles_unlocked(old(self).kst())
+            ensures
+                extends(old(self).kst(), final(self).kst()), inv(final(self).kst()),
+                none_new(old(self).kst(), final(self).kst()) ==> ret is Err && unchanged(old(self).kst(), final(self).kst()),
+                forall|h: SubstateHandle| is_new(old(self).kst(), final(self).kst(), h)
+                    ==> open_guard(old(self).kst(), final(self).kst(), h, SubstateKind::Field, flags, ok_of(ret))
+                        && final(self).kst().handles[h].id == old(self).actor_field(object_handle, field_index),
+                ret matches Ok(h) ==> is_new(old(self).kst(), final(self).kst(), h) && write_handles_unlocked(final(self).kst());
+        fn field_read(&mut self, handle: FieldHandle) -> (ret: Result<Vec<u8>, E>)
+            requires inv(old(self).kst())
+            ensures unchanged(old(self).kst(), final(self).kst()),
+                ret matches Ok(bytes) ==> old(self).kst().handles.contains_key(handle) && old(self).kst().handles[handle].data is Field
+                    && dec::<ScryptoValue>(bytes@) == Some(field_of(old(self).kst().heap[old(self).kst().handles[handle].id])->Some_0.pl());
+        fn field_write(&mut self, handle: FieldHandle, buffer: Vec<u8>) -> (ret: Result<(), E>)
+            requires inv(old(self).kst()), write_handles_unlocked(old(self).kst())
+            ensures
+                heap_monotone(old(self).kst().heap, final(self).kst().heap),
+                inv(final(self).kst()), write_handles_unlocked(final(self).kst()),
+                old(self).kst().handles.contains_key(handle) && !field_write_data(old(self).kst().handles[handle].data) ==> ret is Err,
+                ret is Err ==> unchanged(old(self).kst(), final(self).kst()),
+                ret is Ok ==> only_rewritten(old(self).kst(), final(self).kst(), handle)
+                    && field_write_data(old(self).kst().handles[handle].data)
+                    && dec::<ScryptoValue>(buffer@) is Some
+                    && field_of(final(self).kst().heap[old(self).kst().handles[handle].id]) == Some(unlocked_field(dec::<ScryptoValue>(buffer@)->Some_0));
+        // provided methods of the real trait (radix-engine-interface/src/api/field_api.rs), bodies extracted
+        /*@fn radix-engine-interface/src/api/field_api.rs :: trait SystemFieldApi<E: Debug> :: fn field_read_typed
+        @sig
+            requires inv(old(self).kst()),
+                     // the `unwrap`: the field holds a payload of type S
+                     old(self).kst().handles.contains_key(handle) && old(self).kst().handles[handle].data is Field
+                        ==> payload_is::<S>(field_of(old(self).kst().heap[old(self).kst().handles[handle].id])->Some_0.pl()),
+            ensures unchanged(old(self).kst(), final(self).kst()),
+        @*/
+        /*@fn radix-engine-interface/src/api/field_api.rs :: trait SystemFieldApi<E: Debug> :: fn field_write_typed
+        @sig
+            requires inv(old(self).kst()), write_handles_unlocked(old(self).kst())
+            ensures
+                heap_monotone(old(self).kst().heap, final(self).kst().heap),
+                inv(final(self).kst()), write_handles_unlocked(final(self).kst()),
+                old(self).kst().handles.contains_key(handle) && !field_write_data(old(self).kst().handles[handle].data) ==> ret is Err,
+                ret is Err ==> unchanged(old(self).kst(), final(self).kst()),
+                ret is Ok ==> only_rewritten(old(self).kst(), final(self).kst(), handle)
+                    && field_write_data(old(self).kst().handles[handle].data)
+                    && (field_of(final(self).kst().heap[old(self).kst().handles[handle].id]) matches Some(f) && !f.locked()),
+        @*/
+        fn field_lock(&mut self, handle: FieldHandle) -> (ret: Result<(), E>)
+            requires inv(old(self).kst())
+            ensures
+                heap_monotone(old(self).kst().heap, final(self).kst().heap), inv(final(self).kst()),
+                ret is Err ==> unchanged(old(self).kst(), final(self).kst()),
+                ret is Ok ==> only_rewritten(old(self).kst(), final(self).kst(), handle)
+                    && field_write_data(old(self).kst().handles[handle].data)
+                    && locked(old(self).kst().handles[handle].id, final(self).kst().heap[old(self).kst().handles[handle].id])
+                    && field_of(final(self).kst().heap[old(self).kst().handles[handle].id])->Some_0.pl()
+                        == field_of(old(self).kst().heap[old(self).kst().handles[handle].id])->Some_0.pl(),
+                ret is Ok && write_handles_unlocked(old(self).kst())
+                    ==> write_handles_unlocked_except(final(self).kst(), old(self).kst().handles[handle].id);
+        fn field_close(&mut self, handle: FieldHandle) -> (ret: Result<(), E>)
+            ensures final(self).kst().heap == old(self).kst().heap,
+                ret is Ok ==> final(self).kst().handles == old(self).kst().handles.remove(handle),
+                ret is Err ==> final(self).kst().handles == old(self).kst().handles;
+
+        fn actor_open_key_value_entry(&mut self, object_handle: ActorStateHandle, collection_index: CollectionIndex, key: &Vec<u8>, flags: LockFlags) -> (ret: Result<KeyValueEntryHandle, E>)
+            requires inv(old(self).kst()), write_handles_unlocked(old(self).kst())
+            ensures
+                extends(old(self).kst(), final(self).kst()), inv(final(self).kst()),
+                none_new(old(self).kst(), final(self).kst()) ==> ret is Err && unchanged(old(self).kst(), final(self).kst()),
+                forall|h: SubstateHandle| is_new(old(self).kst(), final(self).kst(), h)
+                    ==> open_guard(old(self).kst(), final(self).kst(), h, SubstateKind::KeyValue, flags, ok_of(ret)),
+                ret matches Ok(h) ==> is_new(old(self).kst(), final(self).kst(), h) && write_handles_unlocked(final(self).kst());
+        fn key_value_entry_set(&mut self, handle: KeyValueEntryHandle, buffer: Vec<u8>) -> (ret: Result<(), E>)
+            requires inv(old(self).kst()), write_handles_unlocked(old(self).kst())
+            ensures
+                heap_monotone(old(self).kst().heap, final(self).kst().heap),
+                inv(final(self).kst()), write_handles_unlocked(final(self).kst()),
+                old(self).kst().handles.contains_key(handle) && !kv_write_data(old(self).kst().handles[handle].data) ==> ret is Err,
+                ret is Err ==> unchanged(old(self).kst(), final(self).kst()),
+                ret is Ok ==> only_rewritten(old(self).kst(), final(self).kst(), handle)
+                    && kv_write_data(old(self).kst().handles[handle].data)
+                    && dec::<ScryptoValue>(buffer@) is Some
+                    && kv_of(final(self).kst().heap[old(self).kst().handles[handle].id])
+                        == Some(kv_entry(Some(dec::<ScryptoValue>(buffer@)->Some_0), LockStatus::Unlocked));
+        /*@fn radix-engine-interface/src/api/key_value_entry_api.rs :: trait SystemKeyValueEntryApi<E> :: fn key_value_entry_set_typed
+        @sig
+            requires inv(old(self).kst()), write_handles_unlocked(old(self).kst())
+            ensures
+                heap_monotone(old(self).kst().heap, final(self).kst().heap),
+                inv(final(self).kst()), write_handles_unlocked(final(self).kst()),
+                old(self).kst().handles.contains_key(handle) && !kv_write_data(old(self).kst().handles[handle].data) ==> ret is Err,
+                ret is Err ==> unchanged(old(self).kst(), final(self).kst()),
+                ret is Ok ==> only_rewritten(old(self).kst(), final(self).kst(), handle)
+                    && kv_write_data(old(self).kst().handles[handle].data)
+                    && (kv_of(final(self).kst().heap[old(self).kst().handles[handle].id]) matches Some(e) && !e.locked() && e.val() is Some),
+        @*/
+        fn key_value_entry_lock(&mut self, handle: KeyValueEntryHandle) -> (ret: Result<(), E>)
+            requires inv(old(self).kst())
+            ensures
+                heap_monotone(old(self).kst().heap, final(self).kst().heap), inv(final(self).kst()),
+                ret is Err ==> unchanged(old(self).kst(), final(self).kst()),
+                ret is Ok ==> only_rewritten(old(self).kst(), final(self).kst(), handle)
+                    && kv_write_data(old(self).kst().handles[handle].data)
+                    && locked(old(self).kst().handles[handle].id, final(self).kst().heap[old(self).kst().handles[handle].id])
+                    && kv_of(final(self).kst().heap[old(self).kst().handles[handle].id])->Some_0.val()
+                        == kv_of(old(self).kst().heap[old(self).kst().handles[handle].id])->Some_0.val(),
+                ret is Ok && write_handles_unlocked(old(self).kst())
+                    ==> write_handles_unlocked_except(final(self).kst(), old(self).kst().handles[handle].id);
+        fn key_value_entry_close(&mut self, handle: KeyValueEntryHandle) -> (ret: Result<(), E>)
+            ensures final(self).kst().heap == old(self).kst().heap,
+                ret is Ok ==> final(self).kst().handles == old(self).kst().handles.remove(handle),
+                ret is Err ==> final(self).kst().handles == old(self).kst().handles;
+    }
+
+    impl<'a, Y: SystemBasedKernelApi> SystemApi<RuntimeError> for SystemService<'a, Y> {
+        open spec fn kst(&self) -> KState { self.api.st() }
+        open spec fn actor_field(&self, object_handle: ActorStateHandle, field_index: u8) -> SubstateId { self.api.actor_field(object_handle, field_index) }
+        fn actor_open_field(&mut self, object_handle: ActorStateHandle, field_index: u8, flags: LockFlags) -> (ret: Result<SubstateHandle, RuntimeError>)
+        { SystemService::<'a, Y>::actor_open_field(self, object_handle, field_index, flags) }
+        fn field_read(&mut self, handle: FieldHandle) -> (ret: Result<Vec<u8>, RuntimeError>)
+        { SystemService::<'a, Y>::field_read(self, handle) }
+        fn field_write(&mut self, handle: FieldHandle, buffer: Vec<u8>) -> (ret: Result<(), RuntimeError>)
+        { SystemService::<'a, Y>::field_write(self, handle, buffer) }
+        fn field_lock(&mut self, handle: FieldHandle) -> (ret: Result<(), RuntimeError>)
+        { SystemService::<'a, Y>::field_lock(self, handle) }
+        fn field_close(&mut self, handle: FieldHandle) -> (ret: Result<(), RuntimeError>)
+        { SystemService::<'a, Y>::field_close(self, handle) }
+        fn actor_open_key_value_entry(&mut self, object_handle: ActorStateHandle, collection_index: CollectionIndex, key: &Vec<u8>, flags: LockFlags) -> (ret: Result<KeyValueEntryHandle, RuntimeError>)
+        { SystemService::<'a, Y>::actor_open_key_value_entry(self, object_handle, collection_index, key, flags) }
+        fn key_value_entry_set(&mut self, handle: KeyValueEntryHandle, buffer: Vec<u8>) -> (ret: Result<(), RuntimeError>)
+        { SystemService::<'a, Y>::key_value_entry_set(self, handle, buffer) }
+        fn key_value_entry_lock(&mut self, handle: KeyValueEntryHandle) -> (ret: Result<(), RuntimeError>)
+        { SystemService::<'a, Y>::key_value_entry_lock(self, handle) }
+        fn key_value_entry_close(&mut self, handle: KeyValueEntryHandle) -> (ret: Result<(), RuntimeError>)
+        { SystemService::<'a, Y>::key_value_entry_close(self, handle) }
+    }
+
+    /// two-state form of lemma_close_restores
+    pub proof fn lemma_closed(s: KState, s1: KState, h: SubstateHandle)
+        requires inv(s), s1.heap == s.heap, s1.handles == s.handles.remove(h)
+        ensures inv(s1),
+                write_handles_unlocked(s) ==> write_handles_unlocked(s1),
+                s.handles.contains_key(h) && s.handles[h].mutable && write_handles_unlocked_except(s, s.handles[h].id) ==> write_handles_unlocked(s1),
+    {
+        lemma_close_keeps(s, h);
+        if s.handles.contains_key(h) && s.handles[h].mutable && write_handles_unlocked_except(s, s.handles[h].id) { lemma_close_restores(s, h); }
+        assert(s1 == KState { heap: s.heap, handles: s.handles.remove(h) });
+    }
+    pub proof fn lemma_only_rewritten_frame(s0: KState, s1: KState, h: SubstateHandle)
+        requires only_rewritten(s0, s1, h)
+        ensures forall|o: SubstateId| #[trigger] s0.heap.contains_key(o) && o != s0.handles[h].id ==> s1.heap.contains_key(o) && s1.heap[o] == s0.heap[o]
+    {
+        let id = s0.handles[h].id;
+        assert forall|o: SubstateId| #[trigger] s0.heap.contains_key(o) && o != id implies s1.heap.contains_key(o) && s1.heap[o] == s0.heap[o] by {
+            assert(s0.heap.remove(id).contains_key(o));
+            assert(s1.heap.remove(id).contains_key(o));
+            assert(s1.heap.remove(id)[o] == s0.heap.remove(id)[o]);
+        }
+    }
+    /// what `lock` on a key-value entry of the actor achieves: entry `id` is now Locked, same value; nothing else moved
+    pub open spec fn entry_locked_step(s0: KState, s1: KState, id: SubstateId) -> bool {
+        &&& kind(id) is KeyValue && s1.heap.contains_key(id) && locked(id, s1.heap[id])
+        &&& s0.heap.contains_key(id) ==> kv_of(s1.heap[id])->Some_0.val() == kv_of(s0.heap[id])->Some_0.val()
+        &&& forall|o: SubstateId| #[trigger] s0.heap.contains_key(o) && o != id ==> s1.heap.contains_key(o) && s1.heap[o] == s0.heap[o]
+    }
+    /// what `set` achieves: entry `id` -- which was NOT locked -- now holds `v`, Unlocked; nothing else moved
+    pub open spec fn entry_set_step(s0: KState, s1: KState, id: SubstateId, v: ScryptoValue) -> bool {
+        &&& kind(id) is KeyValue && s1.heap.contains_key(id)
+        &&& s0.heap.contains_key(id) ==> !locked(id, s0.heap[id])
+        &&& kv_of(s1.heap[id]) == Some(kv_entry(Some(v), LockStatus::Unlocked))
+        &&& forall|o: SubstateId| #[trigger] s0.heap.contains_key(o) && o != id ==> s1.heap.contains_key(o) && s1.heap[o] == s0.heap[o]
+    }
+
+    /*@item radix-engine/src/object_modules/metadata/package.rs :: struct MetadataNativePackage
+    @*/
+    impl MetadataNativePackage {
+        /*@fn radix-engine/src/object_modules/metadata/package.rs :: impl MetadataNativePackage :: fn lock
+        @sig
+            requires inv(old(api).kst()), write_handles_unlocked(old(api).kst())
+            ensures
+                // C51: whatever was locked before is untouched (in particular: locking never unlocks)
+                heap_monotone(old(api).kst().heap, final(api).kst().heap),
+                inv(final(api).kst()),
+                ret is Ok ==> write_handles_unlocked(final(api).kst()) && final(api).kst().handles =~= old(api).kst().handles
+                    && exists|id: SubstateId| entry_locked_step(old(api).kst(), final(api).kst(), id),
+        @entry
+            proof { assert(1u32 & 1u32 == 1u32) by (bit_vector); }
+        @after <<let handle = api.actor_open_key_value_entry>> #1
+            let ghost s1 = api.kst();
+            let ghost id = s1.handles[handle].id;
+        @before <<api.key_value_entry_close(handle)?>> #1
+            let ghost s2 = api.kst();
+        @after <<api.key_value_entry_close(handle)?>> #1
+            proof {
+                lemma_closed(s2, api.kst(), handle);
+                lemma_only_rewritten_frame(s1, s2, handle);
+                assert(entry_locked_step(old(api).kst(), api.kst(), id));
+            }
+        @*/
+        /*@fn radix-engine/src/object_modules/metadata/package.rs :: impl MetadataNativePackage :: fn set
+        @sig
+            requires inv(old(api).kst()), write_handles_unlocked(old(api).kst())
+            ensures
+                // C51: a locked entry (or anything else locked) is never changed by `set` ...
+                heap_monotone(old(api).kst().heap, final(api).kst().heap),
+                inv(final(api).kst()),
+                // ... and `set` succeeds only on an entry that is not locked
+                ret is Ok ==> write_handles_unlocked(final(api).kst()) && final(api).kst().handles =~= old(api).kst().handles
+                    && dec::<ScryptoValue>(metadata_value_sbor(value)) is Some
+                    && exists|id: SubstateId| entry_set_step(old(api).kst(), final(api).kst(), id, dec::<ScryptoValue>(metadata_value_sbor(value))->Some_0),
+        @closure 1 := |e: MetadataKeyValidationError| -> (r: RuntimeError) ensures true
+        @closure 2 := |e: MetadataValueValidationError| -> (r: RuntimeError) ensures true
+        @entry
+            proof { assert(1u32 & 1u32 == 1u32) by (bit_vector); }
+        @after <<let handle = api.actor_open_key_value_entry>> #1
+            let ghost s1 = api.kst();
+            let ghost id = s1.handles[handle].id;
+        @before <<api.key_value_entry_close(handle)?>> #1
+            let ghost s2 = api.kst();
+        @after <<api.key_value_entry_close(handle)?>> #1
+            proof {
+                lemma_closed(s2, api.kst(), handle);
+                lemma_only_rewritten_frame(s1, s2, handle);
+                assert(entry_set_step(old(api).kst(), api.kst(), id, dec::<ScryptoValue>(metadata_value_sbor(value))->Some_0));
+            }
+        @*/
+    }
+
+    /*@item radix-engine/src/object_modules/royalty/package.rs :: struct ComponentRoyaltyBlueprint
+    @*/
+    impl ComponentRoyaltyBlueprint {
+        /*@fn radix-engine/src/object_modules/royalty/package.rs :: impl ComponentRoyaltyBlueprint :: fn set_royalty
+        @sig
+            requires inv(old(api).kst()), write_handles_unlocked(old(api).kst())
+            ensures
+                heap_monotone(old(api).kst().heap, final(api).kst().heap),
+                inv(final(api).kst()),
+                // succeeds only on a royalty entry that is not locked; that entry now holds a value, Unlocked
+                ret is Ok ==> write_handles_unlocked(final(api).kst()) && final(api).kst().handles =~= old(api).kst().handles
+                    && exists|id: SubstateId| kind(id) is KeyValue && final(api).kst().heap.contains_key(id)
+                        && (old(api).kst().heap.contains_key(id) ==> !locked(id, old(api).kst().heap[id]))
+                        && others_same(old(api).kst(), final(api).kst(), id),
+        @entry
+            proof { assert(1u32 & 1u32 == 1u32) by (bit_vector); }
+        @after <<let handle = api.actor_open_key_value_entry>> #1
+            let ghost s1 = api.kst();
+            let ghost id = s1.handles[handle].id;
+        @before <<api.key_value_entry_close(handle)?>> #1
+            let ghost s2 = api.kst();
+        @after <<api.key_value_entry_close(handle)?>> #1
+            proof {
+                lemma_closed(s2, api.kst(), handle);
+                lemma_only_rewritten_frame(s1, s2, handle);
+                assert(kind(id) is KeyValue && api.kst().heap.contains_key(id)
+                    && (old(api).kst().heap.contains_key(id) ==> !locked(id, old(api).kst().heap[id]))
+                    && others_same(old(api).kst(), api.kst(), id));
+            }
+        @*/
+        /*@fn radix-engine/src/object_modules/royalty/package.rs :: impl ComponentRoyaltyBlueprint :: fn lock_royalty
+        @sig
+            requires inv(old(api).kst()), write_handles_unlocked(old(api).kst())
+            ensures
+                heap_monotone(old(api).kst().heap, final(api).kst().heap),
+                inv(final(api).kst()),
+                ret is Ok ==> write_handles_unlocked(final(api).kst()) && final(api).kst().handles =~= old(api).kst().handles
+                    && exists|id: SubstateId| entry_locked_step(old(api).kst(), final(api).kst(), id),
+        @entry
+            proof { assert(1u32 & 1u32 == 1u32) by (bit_vector); }
+        @after <<let handle = api.actor_open_key_value_entry>> #1
+            let ghost s1 = api.kst();
+            let ghost id = s1.handles[handle].id;
+        @before <<api.key_value_entry_close(handle)?>> #1
+            let ghost s2 = api.kst();
+        @after <<api.key_value_entry_close(handle)?>> #1
+            proof {
+                lemma_closed(s2, api.kst(), handle);
+                lemma_only_rewritten_frame(s1, s2, handle);
+                assert(entry_locked_step(old(api).kst(), api.kst(), id));
+            }
+        @*/
+    }
+
+    /// the owner-role field of the actor: field 0 of SELF
+    pub open spec fn owner_field<Y: SystemApi<RuntimeError>>(api: &Y) -> SubstateId { api.actor_field(ACTOR_STATE_SELF, 0u8) }
+    /// everything but `id` is as it was
+    pub open spec fn others_same(s0: KState, s1: KState, id: SubstateId) -> bool {
+        forall|o: SubstateId| #[trigger] s0.heap.contains_key(o) && o != id ==> s1.heap.contains_key(o) && s1.heap[o] == s0.heap[o]
+    }
+    /*@item radix-engine/src/object_modules/role_assignment/package.rs :: struct RoleAssignmentNativePackage
+    @*/
+    impl RoleAssignmentNativePackage {
+        /*@fn radix-engine/src/object_modules/role_assignment/package.rs :: impl RoleAssignmentNativePackage :: fn set_owner_role
+        @sig
+            requires inv(old(api).kst()), write_handles_unlocked(old(api).kst()),
+                     // schema typing of the owner-role field (the real code unwraps the typed read)
+                     old(api).kst().heap.contains_key(owner_field(old(api))),
+                     payload_is::<RoleAssignmentOwnerFieldPayload>(field_of(old(api).kst().heap[owner_field(old(api))])->Some_0.pl()),
+            ensures
+                heap_monotone(old(api).kst().heap, final(api).kst().heap),
+                inv(final(api).kst()),
+                // a locked owner role cannot be set
+                locked(owner_field(old(api)), old(api).kst().heap[owner_field(old(api))]) ==> ret is Err,
+                ret is Ok ==> write_handles_unlocked(final(api).kst()) && final(api).kst().handles =~= old(api).kst().handles
+                    && others_same(old(api).kst(), final(api).kst(), owner_field(old(api))),
+        @closure 1 := |e: RoleAssignmentError| -> (r: RuntimeError) ensures true
+        @entry
+            proof { assert(1u32 & 1u32 == 1u32) by (bit_vector); }
+        @after <<let handle = api.actor_open_field>> #1
+            let ghost s1 = api.kst();
+        @before <<api.field_close(handle)?>> #1
+            let ghost s2 = api.kst();
+        @after <<api.field_close(handle)?>> #1
+            proof {
+                lemma_closed(s2, api.kst(), handle);
+                lemma_only_rewritten_frame(s1, s2, handle);
+            }
+        @*/
+        /*@fn radix-engine/src/object_modules/role_assignment/package.rs :: impl RoleAssignmentNativePackage :: fn lock_owner_role
+        @sig
+            requires inv(old(api).kst()), write_handles_unlocked(old(api).kst()),
+                     old(api).kst().heap.contains_key(owner_field(old(api))),
+                     payload_is::<RoleAssignmentOwnerFieldPayload>(field_of(old(api).kst().heap[owner_field(old(api))])->Some_0.pl()),
+            ensures
+                heap_monotone(old(api).kst().heap, final(api).kst().heap),
+                inv(final(api).kst()),
+                // an already locked owner role cannot even be re-locked (write access is refused)
+                locked(owner_field(old(api)), old(api).kst().heap[owner_field(old(api))]) ==> ret is Err,
+                ret is Ok ==> write_handles_unlocked(final(api).kst()) && final(api).kst().handles =~= old(api).kst().handles
+                    && locked(owner_field(old(api)), final(api).kst().heap[owner_field(old(api))])
+                    && others_same(old(api).kst(), final(api).kst(), owner_field(old(api))),
+        @entry
+            proof { assert(1u32 & 1u32 == 1u32) by (bit_vector); }
+        @after <<let handle = api.actor_open_field>> #1
+            let ghost s1 = api.kst();
+        @before <<api.field_lock(handle)?>> #1
+            let ghost s2 = api.kst();
+        @before <<api.field_close(handle)?>> #1
+            let ghost s3 = api.kst();
+        @after <<api.field_close(handle)?>> #1
+            proof {
+                lemma_closed(s3, api.kst(), handle);
+                lemma_only_rewritten_frame(s1, s2, handle);
+                lemma_only_rewritten_frame(s2, s3, handle);
+            }
         @*/
     }
 
